@@ -79,7 +79,7 @@ func H_EPOCHS() {
 			}
 		}
 		vQuiesce()
-		for x := 0; x < E; x++ {
+		for x := E - 1; x >= 0; x-- { // newest first: a scan unlinks marked nodes it crosses and could repair what a newer snapshot shows
 			if open[x] {
 				vScanCheck(db, c, snaps[x], &ghosts[x], "open snapshot after another was closed and collected")
 			}
@@ -165,6 +165,10 @@ func H_C05E() {
 // H_C10E: Visitor after an epoch-structured history.
 func H_C10E() {
 	cfg, c := vConfig()
+	if r := vBound("vrate"); r > 0 {
+		// the visitor's iterators refresh every 10000 steps; a small rate stands in for large databases
+		cfg.refreshRate = r
+	}
 	db := NewWithConfig(cfg)
 	E := vBound("epochs")
 	K := vBound("keys")
